@@ -16,6 +16,7 @@ static void do_op(const char* op)
     else if (op[0] == 'T') gp_test(op[1] == '-' ? NULL : names[atoi(op + 1) & 63]);
     else if (op[0] == 'E' && op[1] == '1') gp_expect(1 + 1 == 2);
     else if (op[0] == 'E' && op[2] == 'f') { int my_var = -39; gp_expect(1 + 1 == 3, "a note", "%x", 127, my_var, "[%i, %i]", 1, 2); }
+    else if (op[0] == 'E' && op[2] == 'g') { gp_expect(1 + 1 == 3, "%%%i %i", 1, 2, "100%% of %s", "x"); }   /* literal percent signs in format strings */
     else if (op[0] == 'E') gp_expect(0 != 0);
     else if (op[0] == 'A' && op[1] == '1') gp_assert(2 > 1);
     else if (op[0] == 'A') gp_assert(2 < 1, "%s", "boom");
@@ -28,6 +29,7 @@ static void* thread_main(void* p) { struct chunk* c = p; for (int i = 0; i < c->
 static void child(char* script)
 {
     setvbuf(stdout, NULL, _IONBF, 0); setvbuf(stderr, NULL, _IONBF, 0);
+    alarm(2);                         /* a test program that does not terminate is killed: status 128+SIGALRM */
     char* ops[256]; int n = 0;
     if (strcmp(script, "-")) for (char* t = strtok(script, ","); t && n < 256; t = strtok(NULL, ",")) ops[n++] = t;
     for (int i = 0; i < n;) {
